@@ -162,7 +162,7 @@ def squeeze(s):
 
 
 def struct_fields(region, struct):
-    m = re.search(r"pub struct " + struct + r"(?:<[^>{}]*>)?\s*\{", region)
+    m = re.search(r"(?:pub )?struct " + struct + r"(?:<[^>{}]*>)?\s*\{", region)
     if not m:
         raise TErr(f"`pub struct {struct}` not found")
     end = match_close(region, m.end(), "{", "}")
@@ -338,6 +338,10 @@ class Parser:
             self.eat()
             name = self.eat()
             return ("pvar", name, True)
+        if cur == "ref" and self.peek(1) == "mut":
+            self.eat()
+            self.eat()
+            return ("prefmut", self.eat())
         if cur == "(":
             self.eat()
             items = []
@@ -906,7 +910,8 @@ U64 = ("u64",)                      # u64 with wrapping arithmetic: Lean `UInt64
 F64U = ("f64u",)                    # a double in [0, 1) given as `from_bits(1023 << 52 | m) - 1.0`: its 52 mantissa bits `m : Nat`
 F64 = ("f64",)                      # an arbitrary double parameter: the decoded `Rand.F64` of the hand-written model
 PSET = ("pset",)                    # BTreeSet<(usize, usize)>: the ascending pair list of Model/Repr.lean (`pinsert`)
-BLOCKS = ("blocks",)                # the bit blocks of the adjacency matrix (never touched by the covered code)
+WORD = ("word",)                     # a `usize` used as a 64-bit word of bits: Lean `BitVec 64`
+BLOCKS = ("list", WORD)             # the bit blocks of the adjacency matrix
 
 
 def prune(t):
@@ -1029,8 +1034,8 @@ def lean_ty(t, atom=False, prec=None):
         return "Rand.F64"
     if k == "pset":
         return "List (Nat × Nat)" if prec < 2 else "(List (Nat × Nat))"
-    if k == "blocks":
-        return "List (BitVec 64)" if prec < 2 else "(List (BitVec 64))"
+    if k == "word":
+        return "BitVec 64" if prec < 2 else "(BitVec 64)"
     if k == "map":
         return "NatMap"
     if k in ("graph", "tarjanOf"):
@@ -1287,6 +1292,46 @@ TARGETS4 = [
     ("AdjacencyMap", "Union", "union", "union", PAR),
 ]
 
+# the fifth generated file (Model/AlgoGen5.lean): the remaining functions with unchecked accesses
+LOW = {"par": True, "low": True}
+STRUCTS.update({
+    "MxArcsIterator": dict(rust="ArcsIterator", dir="repr/adjacency_matrix", file="mod.rs", graph=None, sentinel=None,
+                           fields=[("matrix", "&'aAdjacencyMatrix", ("struct", "AdjacencyMatrix")), ("block_index", "usize", NAT),
+                                   ("current_bits", "usize", WORD), ("current_base", "usize", NAT)],
+                           item=("(usize,usize)", TUP(NAT, NAT))),
+    "AlArcsIterator": dict(rust="ArcsIterator", dir="repr/adjacency_list", file="mod.rs", graph=None, sentinel=None, extern_ctx=True,
+                           fields=[("arcs", "&'a[BTreeSet<usize>]", LIST(SET(KA))), ("u", "usize", NAT),
+                                   ("inner", "Option<btree_set::Iter<'a,usize>>", OPT(LIST(NAT)))],
+                           item=("(usize,usize)", TUP(NAT, NAT))),
+    "InNeighborsIterator": dict(rust="InNeighborsIterator", dir="repr/adjacency_list", file="mod.rs", graph=None, sentinel=None, extern_ctx=True,
+                                ptr_fields={"ptr"},
+                                fields=[("ptr", "*constBTreeSet<usize>", LIST(SET(KA))), ("len", "usize", NAT), ("i", "usize", NAT),
+                                        ("v", "usize", NAT), ("_marker", "PhantomData<&'aBTreeSet<usize>>", UNIT)],
+                                item=("usize", NAT)),
+})
+TARGETS5 = [
+    ("AdjacencyMatrix", None, "mask", "mask", dict(LOW, ret=WORD)),
+    ("AdjacencyMatrix", None, "index", "index", LOW),
+    ("AdjacencyMatrix", None, "toggle", "toggle", LOW),
+    ("AdjacencyMatrix", "AddArc", "add_arc", "addArc", LOW),
+    ("AdjacencyList", "AddArc", "add_arc", "addArc", LOW),
+    ("AdjacencyList", "OutNeighbors", "out_neighbors", "outNeighbors", LOW),
+    ("MxArcsIterator", None, "new", "new", LOW),
+    ("MxArcsIterator", "Iterator", "next", "next", LOW),
+    ("AlArcsIterator", "Iterator", "next", "next", LOW),
+    ("InNeighborsIterator", "Iterator", "next", "next", LOW),
+    ("AdjacencyMatrix", "Arcs", "arcs", "arcsIter", dict(LOW, ret=("struct", "MxArcsIterator"))),
+    ("AdjacencyList", "Arcs", "arcs", "arcsIter", dict(LOW, ret=("struct", "AlArcsIterator"))),
+    ("AdjacencyList", "InNeighbors", "in_neighbors", "inNeighborsIter", dict(LOW, ret=("struct", "InNeighborsIterator"))),
+    ("AdjacencyList", "HasWalk", "has_walk", "hasWalk", LOW),
+    ("AdjacencyList", "IsTournament", "is_tournament", "isTournament", LOW),
+    ("AdjacencyMap", "OutNeighbors", "out_neighbors", "outNeighbors", LOW),
+    ("AdjacencyMap", "HasWalk", "has_walk", "hasWalk", LOW),
+    ("DistanceMatrix", None, "new", "new", LOW),
+    ("DistanceMatrix", "IndexMut<usize>", "index_mut", "indexMut", dict(LOW, ret=NAT, refpos=True)),
+    ("DistanceMatrix", "IndexMut<(usize,usize)>", "index_mut", "indexMut2", dict(LOW, ret=NAT, refpos=True)),
+]
+
 # the second generated file (Model/AlgoGen2.lean)
 TARGETS2 = [
     ("Tarjan", None, "new", "new", {}),
@@ -1324,7 +1369,7 @@ TARGETS2 = [
 
 # candidates deliberately left to the hand-written models
 NOT_COVERED = {
-    ("FloydWarshall", None, "new"): "calls `DistanceMatrix::new` (`set_len` + `ptr::write` on an uninitialised buffer)",
+    ("FloydWarshall", None, "new"): "calls `DistanceMatrix::new` (`set_len` + `ptr::write` on an uninitialised buffer; `DistanceMatrix::new` itself: set 5, `Model/AlgoGen5.lean`)",
     ("PredecessorTree", "From", "from"): "trivial wrapper, not modelled by hand either",
     ("PredecessorTree", "Index", "index"): "trivial wrapper (`&self.pred[index]`)",
     ("PredecessorTree", "IndexMut", "index_mut"): "trivial wrapper",
@@ -1363,7 +1408,13 @@ FUEL_HINTS = {
     ("AdjacencyMap", "merge_two_sorted", "while1"): "lhs_len",
     ("AdjacencyMap", "merge_two_sorted", "while2"): "rhs_len",
     ("AdjacencyMap", "find_partition", "while0"): "lhs_len",        # `hi - lo <= lhs_len`, halved every round
-    ("AdjacencyMap", "union", "while0"): "order",                   # every round moves a cursor; both are bounded by n1 + n2
+    ("AdjacencyMap", "union", "while0"): "order",
+    # set 5: one round per set bit plus one per block (the bound of the hand-written `iterFuel`)
+    ("MxArcsIterator", "next", "while0"): "65 * self.matrix.blocks.len() + 1",
+    ("AlArcsIterator", "next", "loop0"): "self.arcs.len() + 2",        # a round returns an item or opens the next row
+    ("InNeighborsIterator", "next", "while0"): "self.len",
+    ("AdjacencyList", "has_walk", "while0"): "len",                     # the pointer advances by one element per round
+    ("AdjacencyMap", "has_walk", "while0"): "len",                   # every round moves a cursor; both are bounded by n1 + n2
 }
 
 LEAN_KEYWORDS = {"at", "from", "end", "open", "then", "fun", "have", "show", "by", "do", "in", "let", "if", "else",
@@ -1457,6 +1508,8 @@ class Ctx:
         self.mutrefs = []       # rust names of the `&mut T` parameters (returned after `self`)
         self.branch_states = []         # (first binding id of the branch, ids of the variables it returns | None)
         self.pipe_n = 0
+        self.rawbufs = set()            # set 5: rust names of vectors built by `with_capacity` + `ptr::write` + `set_len`
+        self.low = False                # set 5: words of bits, moving pointers, raw buffers
         self.par = False                # set 4: the concurrency constructs are read as in DESIGN.md 4.2
         self.collect_target = None      # Rust type text of the container a `.collect()` without turbofish builds
 
@@ -1583,11 +1636,16 @@ def place_set(ctx, env, place, newcode):
             raise TErr(f"internal: `{root}` is updated inside a branch but is not part of the state the branch returns")
     ctx.use(b)
 
-    def build(prefix, fs):
+    def build(prefix, fs, ty):
         if not fs:
             return newcode
-        return "{ " + prefix + " with " + fs[0] + " := " + build(prefix + "." + fs[0], fs[1:]) + " }"
-    ctx.em.emit(f"let {b.lean}{asc_mark(b.ty) if not fields else ''} := {build(b.lean, fields)}")
+        t = prune(ty)
+        f0, nty = fs[0], None
+        if not isinstance(t, TVar) and t[0] == "struct" and t[1] in STRUCTS:
+            f0 = STRUCTS[t[1]].get("lean_fields", {}).get(fs[0], fs[0])
+            nty = field_ty(t[1], fs[0]) if len(fs) > 1 else None
+        return "{ " + prefix + " with " + f0 + " := " + build(prefix + "." + f0, fs[1:], nty) + " }"
+    ctx.em.emit(f"let {b.lean}{asc_mark(b.ty) if not fields else ''} := {build(b.lean, fields, b.ty)}")
     b.parts = None
 
 
@@ -1597,12 +1655,17 @@ def eval_ptr(ctx, env, e):
     e = strip_wrappers(e)
     if e[0] == "var":
         b = env.get(e[1])
+        if b is not None and b.kind == "val" and getattr(b, "ptr_place", None) is not None:
+            ctx.use(b)
+            return ("elem", b.ptr_place, Val(b.lean, NAT, atomic=True), ctx.site(e[1]))
         if b is not None and b.kind == "ptr":
             return ("ptr", b.place)
         if b is not None and b.kind == "elem":
             i = compile_expr(ctx, env, b.idx, NAT)     # the offset expression only mentions immutable variables
             return ("elem", b.place, i, b.site)
         return None
+    if e[0] == "field" and strip_wrappers(e[1]) == ("var", "self") and e[2] in ctx.sinfo.get("ptr_fields", ()):
+        return ("ptr", ("self", [e[2]]))
     if e[0] == "cast" and ctx.par and (e[2] == "usize" or e[2].startswith("*")):
         # `p as usize`, `x as *const T`: the same pointer (docs/AlgoGen.md, Set 4: the round trip keeps address and provenance)
         return eval_ptr(ctx, env, e[1])
@@ -1616,6 +1679,10 @@ def eval_ptr(ctx, env, e):
         return ("ptr", pl)
     if e[0] == "mcall" and e[2] == "add" and len(e[4]) == 1:
         base = eval_ptr(ctx, env, e[1])
+        if ctx.low and base is not None and base[0] == "elem":
+            k = compile_expr(ctx, env, e[4][0], NAT)
+            unify(k.ty, NAT, "pointer offset")
+            return ("elem", base[1], Val(f"{base[2].p()} + {k.p()}", NAT), ctx.site(unparse(e)))
         if base is None or base[0] != "ptr":
             raise TErr(f"`{unparse(e)}`: .add() on something that is not a vector's buffer pointer")
         i = compile_expr(ctx, env, e[4][0], NAT)
@@ -1724,6 +1791,8 @@ def compile_expr(ctx, env, e, expect=None):
         if div or v is None:
             raise TErr("a block without value in expression position")
         return v
+    if k == "lit" and ctx.low and expect is not None and prune(expect) == WORD:
+        return Val(f"{e[1]}#64", WORD, atomic=True)
     if k == "lit":
         t = TVar(numeric=True)
         if expect is not None:
@@ -1743,6 +1812,13 @@ def compile_expr(ctx, env, e, expect=None):
         b = env.get(name)
         if b is None:
             raise TErr(f"unknown variable `{name}`")
+        if b.kind == "val" and getattr(b, "rawbuf", None):
+            lb = env[b.rawbuf]
+            ctx.use(b)
+            ctx.use(lb)
+            tmp = ctx.fresh_tmp()
+            ctx.em.emit(f"let {tmp} ← bufFreeze {ctx.site(name)} {b.lean} {lb.lean}")
+            return Val(tmp, LIST(prune(prune(b.ty)[1])[1]), atomic=True, stable=True)
         if b.kind == "val":
             ctx.use(b)
             return Val(b.lean, b.ty, atomic=True, stable=b.stable)
@@ -1859,6 +1935,11 @@ def compile_expr(ctx, env, e, expect=None):
         return compile_struct(ctx, env, e)
     if k == "closure":
         raise TErr("a closure outside an argument position is outside the supported subset")
+    if k == "cast" and ctx.low and e[2] == "usize":
+        v = compile_expr(ctx, env, e[1], NAT)
+        if prune(v.ty) == NAT:
+            return v                                            # `x.trailing_zeros() as usize`: u32 -> usize
+        raise TErr(f"`{unparse(e)}`: this cast is outside the supported subset")
     if k == "cast" and ctx.par and e[2] == "u64":
         v = compile_expr(ctx, env, e[1], NAT)
         unify(v.ty, NAT, "operand of `as u64`")
@@ -2033,6 +2114,27 @@ def compile_bin(ctx, env, e, expect):
         if op == "!=":
             return Val(f"{a.p()} != {b.p()}", BOOL)
         return Val(f"decide ({a.code} {op.replace('<=', '≤').replace('>=', '≥')} {b.code})", BOOL)
+    if ctx.low and op in ("^", "&", "|", "<<", "-"):
+        l3 = strip_wrappers(e[3])
+        if op == "&" and l3[0] == "lit" and l3[1] > 0 and (l3[1] + 1) & l3[1] == 0:
+            a = compile_expr(ctx, env, e[2])
+            if prune(a.ty) == NAT or (isinstance(prune(a.ty), TVar) and prune(a.ty).numeric and (expect is None or prune(expect) != WORD)):
+                unify(a.ty, NAT, "operand of &")
+                return Val(f"{a.p()} % {l3[1] + 1}", NAT)          # `i & (2^k - 1)` on an index
+        if op == "<<" and ((expect is not None and prune(expect) == WORD) or strip_wrappers(e[2])[0] == "lit"):
+            # `1 << k`: a word with one bit set (in the covered files a left shift only ever builds a mask)
+            a = compile_expr(ctx, env, e[2], WORD)
+            unify(a.ty, WORD, "operand of <<")
+            b = compile_expr(ctx, env, e[3], NAT)
+            unify(b.ty, NAT, "shift amount")
+            return Val(f"{a.p()} <<< {b.p()}", WORD)
+        if op in ("^", "&", "|", "-"):
+            a = compile_expr(ctx, env, e[2], expect if expect is not None and prune(expect) == WORD else None)
+            if prune(a.ty) == WORD:
+                b = compile_expr(ctx, env, e[3], WORD)
+                unify(b.ty, WORD, f"operand of {op}")
+                lop = {"^": "^^^", "&": "&&&", "|": "|||", "-": "-"}[op]
+                return Val(f"{a.p()} {lop} {b.p()}", WORD)
     if op == ">>" and ctx.par and strip_wrappers(e[3])[0] == "lit" and 0 < strip_wrappers(e[3])[1] < 64:
         a = compile_expr(ctx, env, e[2], expect)
         ta = prune(a.ty)
@@ -2067,7 +2169,7 @@ def compile_bin(ctx, env, e, expect):
         t = num_result(a, b, f"operands of {op}")
         if prune(t) == U64:
             raise TErr(f"`{op}` on u64 (overflow panics in the dev profile) is outside the supported subset; use wrapping_*")
-        if op == "%" and prune(t) == NAT and ctx.sinfo.get("extern"):
+        if op == "%" and prune(t) == NAT and (ctx.sinfo.get("extern") or ctx.low):
             tmp = ctx.fresh_tmp()
             ctx.em.emit(f"let {tmp} ← modP {a.p()} {b.p()}")      # panics for a zero divisor
             return Val(tmp, NAT, atomic=True, stable=True)
@@ -2122,10 +2224,20 @@ def compile_cond(ctx, env, e):
     return f"{v.p()} = true"
 
 
+def struct_key(ctx, rust_name):
+    """the STRUCTS key of a struct named in the current file (two files may both have a private `ArcsIterator`)"""
+    here = (ctx.sinfo.get("dir"), ctx.sinfo["file"])
+    for k, info in STRUCTS.items():
+        if info.get("rust") == rust_name and (info.get("dir"), info["file"]) == here:
+            return k
+    return rust_name
+
+
 def compile_struct(ctx, env, e):
     name = e[1][-1]
     if name == "Self":
         name = ctx.sname
+    name = struct_key(ctx, name)
     if name not in STRUCTS:
         raise TErr(f"struct literal `{name}` is outside the typed field model")
     given = dict(e[2])
@@ -2138,6 +2250,12 @@ def compile_struct(ctx, env, e):
             sv = strip_wrappers(ex)
             if not (sv[0] == "var" and sv[1] in env and env[sv[1]].kind == "graph"):
                 raise TErr(f"struct literal `{name}`: field `{fname}` must be the digraph reference")
+            continue
+        sx = strip_wrappers(ex)
+        if fname in STRUCTS[name].get("ptr_fields", ()) and sx[0] == "mcall" and sx[2] in ("as_ptr", "as_mut_ptr") and not sx[4]:
+            ex = sx[1]          # a raw pointer field: the slice it points to
+        if fty == UNIT and sx in (("var", "PhantomData"), ("path", ["PhantomData"])):
+            parts.append(f"{fname} := ()")
             continue
         saved_ct = ctx.collect_target
         ctx.collect_target = next(rt for fn_, rt, _ in STRUCTS[name]["fields"] if fn_ == fname)
@@ -2320,8 +2438,12 @@ def compile_call(ctx, env, e, expect):
             _, place, i, site = pe
             pv = place_val(ctx, env, place)
             t = prune(pv.ty)
-            v = compile_expr(ctx, env, args[1], t[1])
-            unify(v.ty, t[1], "value written by ptr::write")
+            raw = not place[1] and getattr(env.get(place[0]), "rawbuf", None)
+            et = prune(t[1])[1] if raw else t[1]
+            v = compile_expr(ctx, env, args[1], et)
+            unify(v.ty, et, "value written by ptr::write")
+            if raw:
+                v = Val(f"some {v.p()}", t[1])
             tmp = ctx.fresh_tmp()
             pv = place_val(ctx, env, place)
             ctx.em.emit(f"let {tmp} ← wr {site} {pv.p()} {i.p()} {v.p()}")
@@ -2397,8 +2519,8 @@ def compile_call(ctx, env, e, expect):
             tmp = ctx.fresh_tmp()
             ctx.em.emit(f"let {tmp} ← optP ({ctx.sinfo['extern']}.empty {n.p()})")
             return Val(tmp, STRUCT(ctx.sname), atomic=True, stable=True)
-        if len(segs) == 2 and (segs[0] in STRUCTS or segs[0] == "Self"):
-            sname = ctx.sname if segs[0] == "Self" else segs[0]
+        if len(segs) == 2 and (struct_key(ctx, segs[0]) in STRUCTS or segs[0] == "Self"):
+            sname = ctx.sname if segs[0] == "Self" else struct_key(ctx, segs[0])
             return compile_fn_call(ctx, env, sname, segs[1], None, args)
         raise TErr(f"call of `{'::'.join(segs)}` is outside the supported subset")
     raise TErr(f"call `{unparse(e)}` is outside the supported subset")
@@ -2658,6 +2780,16 @@ def compile_mcall(ctx, env, e, expect):
         x = compile_expr(ctx, env, strip_wrappers(recv)[2][0], U64)
         unify(x.ty, U64, "argument of usize::try_from")
         return Val(f"{x.p()}.toNat", NAT, atomic=True)
+    if ctx.low and name in ("expect", "unwrap") and strip_wrappers(recv)[0] == "mcall" and strip_wrappers(recv)[2] == "checked_mul" \
+            and len(strip_wrappers(recv)[4]) == 1:
+        # `a.checked_mul(b).expect(..)`: panics when the product does not fit a (64-bit) usize
+        a = compile_expr(ctx, env, strip_wrappers(recv)[1], NAT)
+        b = compile_expr(ctx, env, strip_wrappers(recv)[4][0], NAT)
+        unify(a.ty, NAT, "operand of checked_mul")
+        unify(b.ty, NAT, "operand of checked_mul")
+        tmp = ctx.fresh_tmp()
+        ctx.em.emit(f"let {tmp} ← mulP {a.p()} {b.p()}")
+        return Val(tmp, NAT, atomic=True, stable=True)
     if ctx.par:
         if is_ap_expr(e):
             ctx.use_global("ap")
@@ -2705,7 +2837,8 @@ def compile_mcall(ctx, env, e, expect):
             return Val(f"{r.p()}.order", NAT, atomic=True)
         if name == "arcs" and not args:
             return Val(f"{r.p()}.arcs", LIST(TUP(NAT, NAT)), atomic=True)
-        if name == "has_arc" and len(args) == 2 and t[1] in ("AdjacencyMatrix", "EdgeList"):
+        if name == "has_arc" and len(args) == 2 and (t[1] in ("AdjacencyMatrix", "EdgeList")
+                                                     or (ctx.low and t[1] in ("AdjacencyList", "AdjacencyMap"))):
             # total for these two (no assertion, no unchecked access): the hand-written `hasArc`
             a = compile_expr(ctx, env, args[0], NAT)
             b = compile_expr(ctx, env, args[1], NAT)
@@ -2821,6 +2954,12 @@ def compile_mcall(ctx, env, e, expect):
             tmp = ctx.fresh_tmp()
             ctx.em.emit(f"let {tmp} ← rd {ctx.site(unparse(e))} {r.p()} {i.p()}")
             return Val(tmp, t[1], atomic=True, stable=True)
+        if name == "get" and len(args) == 1 and ctx.low and strip_wrappers(args[0])[0] == "un" and strip_wrappers(args[0])[1] == "&" \
+                and not isinstance(prune(t[1]), TVar) and prune(t[1])[0] == "tup" and len(prune(t[1])[1]) == 2 and prune(prune(t[1])[1][0]) == NAT:
+            # `map.get(&k)` on a `BTreeMap<usize, X>` (key-ascending pair list): the hand-written lookup
+            k = compile_expr(ctx, env, args[0], NAT)
+            unify(k.ty, NAT, "map key")
+            return Val(f"Repr.mget {k.p()} {r.p()}", OPT(prune(t[1])[1][1]))
         if name == "get" and len(args) == 1:
             i = compile_expr(ctx, env, args[0], NAT)
             unify(i.ty, NAT, "argument of .get")
@@ -2889,7 +3028,7 @@ def compile_mcall(ctx, env, e, expect):
             k = compile_expr(ctx, env, args[0], NAT)
             unify(k.ty, NAT, "map key")
             return Val(f"(mapGet {r.p()} {k.p()}).isSome", BOOL, atomic=True)
-    if ctx.sinfo.get("extern") and not isinstance(t, TVar) and (t == PSET or t[0] == "set"):
+    if (ctx.sinfo.get("extern") or ctx.low) and not isinstance(t, TVar) and (t == PSET or t[0] == "set"):
         et = TUP(NAT, NAT) if t == PSET else NAT
         if t != PSET:
             unify(t[1], KA, "set representation")
@@ -2934,6 +3073,10 @@ def compile_mcall(ctx, env, e, expect):
         b = compile_expr(ctx, env, args[0], NAT)
         unify(b.ty, NAT, "argument of .saturating_sub")
         return Val(f"{r.p()} - {b.p()}", NAT)                      # truncated subtraction on `Nat`
+    if ctx.low and name in ("expect", "unwrap") and srecv[0] == "mcall" and srecv[2] == "checked_mul" and len(srecv[4]) == 1:
+        pass
+    if ctx.low and t == WORD and name == "trailing_zeros" and not args:
+        return Val(f"tz {r.p()}", NAT)
     if ctx.par and t == BOOL and name == "load" and len(args) == 1:
         return r                                                    # a `Relaxed` load of the plain Boolean cell
     if ctx.par and (t == NAT or (isinstance(t, TVar) and t.numeric)) and name == "div_ceil" and len(args) == 1:
@@ -3182,6 +3325,12 @@ def mutated_vars(ctx, node, scopes, out):
     if k == "expr":
         mutated_vars(ctx, node[1], scopes, out)
         return
+    if k == "assign" and ctx.low and strip_wrappers(node[2])[0] == "var" and strip_wrappers(node[3])[0] == "mcall" \
+            and strip_wrappers(node[3])[2] == "add":
+        if not declared(strip_wrappers(node[2])[1]):
+            out.add(strip_wrappers(node[2])[1])
+        mutated_vars(ctx, node[3], scopes, out)
+        return
     if k == "assign":
         r = root_of(node[2])
         if r is None:
@@ -3324,6 +3473,10 @@ def compile_stmts(ctx, env, stmts, want_value=False):
             diverged = compile_let(ctx, env, st)
             continue
         e, semi = st[1], st[2]
+        if last and want_value and e[0] == "loop" and ctx.low:
+            # a `loop` at the end of a body: its `break` values (none here: it is left through `return` only) are the value
+            val = compile_loop(ctx, env, e, with_value=True)
+            continue
         if last and not semi and want_value and e[0] not in ("if", "for", "while", "loop", "assign") + DIVERGING:
             if e[0] in ("block", "unsafeblock"):
                 inner = dict(env)
@@ -3459,6 +3612,21 @@ def interior_mut(node):
 
 def compile_let(ctx, env, st):
     _, pat, ty, init, els = st
+    if ty is not None and ctx.low and ty.replace(" ", "").startswith("*") and strip_wrappers(init)[0] == "mcall" \
+            and strip_wrappers(init)[2] in ("as_mut_ptr", "as_ptr"):
+        ty = None       # `let p: *mut T = v.as_mut_ptr();`
+    if ctx.low and ty is None and els is None and strip_pref(pat)[0] == "pvar" and strip_pref(pat)[1] in ctx.rawbufs:
+        si = strip_wrappers(init)
+        if not (si[0] == "call" and si[1] == ("path", ["Vec", "with_capacity"]) and len(si[2]) == 1 and strip_pref(pat)[2]):
+            raise TErr(f"`{strip_pref(pat)[1]}` (a vector with `set_len`) must be created by `let mut v = Vec::with_capacity(n);`")
+        n = compile_expr(ctx, env, si[2][0], NAT)
+        unify(n.ty, NAT, "capacity")
+        name = strip_pref(pat)[1]
+        et = TVar()
+        b = bind_val(ctx, env, name, Val(f"(List.replicate {n.p()} none : List (Option {lean_ty(et, True)}))", LIST(OPT(et))), True, True)
+        lb = bind_val(ctx, env, name + "__len", Val("0", NAT, atomic=True), True, True)
+        b.rawbuf = name + "__len"
+        return False
     if ty is not None:
         if not ctx.par or els is not None or strip_pref(pat)[0] != "pvar":
             raise TErr("a `let` with a type annotation is outside the supported subset")
@@ -3511,6 +3679,17 @@ def compile_let(ctx, env, st):
         if a0[0] != "var" or a0[1] not in env or env[a0[1]].kind != "val":
             raise TErr(f"`{unparse(sinit)}`: `Arc::clone` of something that is not a variable")
         env[sp[1]] = env[a0[1]]
+        return False
+    if ctx.low and sp[0] == "pvar" and sinit[0] == "mcall" and sinit[2] in ("as_mut_ptr", "as_ptr", "add") \
+            and (sp[2] or sinit[2] == "add"):
+        # a pointer into a slice that moves (`let mut p = w.as_ptr(); .. p = p.add(1)`) or is computed once
+        # (`let end = w.as_ptr().add(len - 1)`): its OFFSET in the slice (comparisons of two such pointers compare offsets)
+        pe = eval_ptr(ctx, env, sinit)
+        if pe is None:
+            raise TErr(f"`{unparse(sinit)}`: not a pointer into a slice")
+        off = Val("0", NAT, atomic=True) if pe[0] == "ptr" else pe[2]
+        b = bind_val(ctx, env, sp[1], Val(off.code, NAT, atomic=off.atomic), sp[2], True)
+        b.ptr_place = pe[1]
         return False
     is_ptr_cast = (ctx.par and sinit[0] == "cast" and (sinit[2] == "usize" or sinit[2].startswith("*"))
                    and eval_ptr(ctx, env, sinit) is not None)
@@ -3795,7 +3974,9 @@ def compile_assign(ctx, env, e):
                 unify(rv.ty, t[1], f"operand of {op}")
                 if ctx.par and op == "+=" and isinstance(prune(t[1]), TVar) and prune(t[1]).numeric:
                     unify(t[1], NAT, "operand of +=")
-                if ctx.par and op == "+=" and prune(t[1]) == NAT:
+                if ctx.low and op in ("^=", "|=", "&=") and prune(t[1]) == WORD:
+                    lop = {"^=": "^^^", "|=": "|||", "&=": "&&&"}[op]
+                elif ctx.par and op == "+=" and prune(t[1]) == NAT:
                     lop = "+"
                 elif op != "^=" or prune(t[1]) != U64:
                     raise TErr(f"`{op}` through a pointer is supported for `^=` on u64 only")
@@ -3842,6 +4023,12 @@ def compile_assign(ctx, env, e):
         parts = [v.code if i == k else proj(b.lean, i, n) for i in range(n)]
         place_set(ctx, env, (root, []), "(" + ", ".join(parts) + ")")
         return
+    if ctx.low and op == "=" and slhs[0] == "var" and slhs[1] in env and getattr(env[slhs[1]], "ptr_place", None) is not None:
+        pe = eval_ptr(ctx, env, rhs)
+        if pe is None or pe[0] != "elem" or pe[1] != env[slhs[1]].ptr_place:
+            raise TErr(f"`{unparse(e)}`: a moving pointer must stay in its slice")
+        place_set(ctx, env, (slhs[1], []), pe[2].code)
+        return
     pl = place_of(lhs)
     if pl is None:
         raise TErr(f"assignment target `{unparse(lhs)}` is outside the supported subset")
@@ -3852,6 +4039,10 @@ def compile_assign(ctx, env, e):
         place_set(ctx, env, pl, v.code)
         return
     aop = op[:-1]
+    if ctx.low and aop in ("^", "|", "&") and prune(cur.ty) == WORD:
+        unify(v.ty, WORD, f"operand of {op}")
+        place_set(ctx, env, pl, f"{cur.p()} {({'^': '^^^', '|': '|||', '&': '&&&'})[aop]} {v.p()}")
+        return
     if aop not in ("+", "*") and not (aop == "-" and prune(cur.ty) == INT):
         raise TErr(f"`{op}` is outside the supported subset")
     num_result(cur, v, f"operands of {op}")
@@ -3932,6 +4123,15 @@ def compile_stmt_expr(ctx, env, e):
             compile_expr(ctx, env, e)
             return False
         sr0 = strip_wrappers(recv)
+        if ctx.low and name == "set_len" and len(args) == 1 and sr0[0] == "var" and getattr(env.get(sr0[1]), "rawbuf", None):
+            b = env[sr0[1]]
+            k = compile_expr(ctx, env, args[0], NAT)
+            unify(k.ty, NAT, "argument of set_len")
+            ctx.use(b)
+            tmp = ctx.fresh_tmp()
+            ctx.em.emit(f"let {tmp} ← setLenU {ctx.site(unparse(e))} {b.lean}.length {k.p()}")
+            place_set(ctx, env, (b.rawbuf, []), tmp)
+            return False
         if name == "set_len" and len(args) == 1 and strip_wrappers(args[0]) == ("lit", 0) and sr0[0] == "call" \
                 and sr0[1] == ("path", ["ManuallyDrop", "into_inner"]) and len(sr0[2]) == 1 and strip_wrappers(sr0[2][0])[0] == "var":
             # `ManuallyDrop::into_inner(v).set_len(0);`: the buffer is freed with length 0, no entry is dropped - no value
@@ -4392,10 +4592,13 @@ def calls_self_method(node, rfn):
 def rust_ty(text, ctx_struct, aliases, bounds):
     """model type of a Rust type text (blanks removed)."""
     t = text.replace(" ", "")
+    t = re.sub(r"^&'[a-z_]+(?=[A-Z\[(])", "&", t)        # `&'a T` with the blanks removed
     t = re.sub(r"^&(?:'\w+)?(?:mut)?", "", t)
     sinfo = STRUCTS[ctx_struct]
     if t in bounds:
         return bounds[t]
+    if t == "W" and ctx_struct in ("DistanceMatrix", "AdjacencyListWeighted"):
+        return INT      # the weight type of the typed model
     if t == "usize":
         return NAT
     if t == "isize":
@@ -4477,7 +4680,7 @@ def parse_bounds(ret_text, ctx_struct, aliases):
             continue
         if name == "D":
             continue      # the digraph: its kind is fixed by the typed model (`graph`), checked below
-        if name == "W" and bound in ("Copy", "Clone") and ctx_struct == "AdjacencyListWeighted":
+        if name == "W" and bound in ("Copy", "Clone") and ctx_struct in ("AdjacencyListWeighted", "DistanceMatrix"):
             continue      # the weight type: `Int` in the typed model, copying it is not observable
         raise TErr(f"bound `{part}` is outside the typed model")
     return out
@@ -4506,6 +4709,24 @@ def desugar(n):
     if not isinstance(n, tuple):
         return n
     n = tuple(desugar(x) for x in n)
+    if n and n[0] == "if" and n[1][0] == "letcond" and n[1][1][0] == "pctor" and n[1][1][1] == "Some" \
+            and len(n[1][1][2]) == 1 and n[1][1][2][0][0] == "prefmut":
+        # `if let Some(ref mut it) = PLACE { if let Some(p) = it.next() { S } }` where `it` iterates a set / slice (the list of
+        # the remaining items): `next()` takes the first item off; the exclusive reference `it` writes through to PLACE
+        x = n[1][1][2][0][1]
+        place = n[1][2]
+        th = n[2]
+        ok = n[3] is None and len(th) == 1 and th[0][0] == "expr" and th[0][1][0] == "if" and th[0][1][1][0] == "letcond" \
+            and th[0][1][3] is None
+        if ok:
+            inner = th[0][1]
+            scr = strip_wrappers(inner[1][2])
+            ok = scr[0] == "mcall" and scr[2] == "next" and not scr[4] and strip_wrappers(scr[1]) == ("var", x)
+        if not ok:
+            raise TErr("`if let Some(ref mut it) = ..`: only `{ if let Some(p) = it.next() { .. } }` is supported inside")
+        wb = ("expr", ("assign", "=", place, ("call", ("var", "Some"), [("var", x)])), True)
+        new_inner = ("if", ("letcond", inner[1][1], ("mcall", ("var", x), "pop_front", None, [])), [wb] + list(inner[2]), None)
+        return ("if", ("letcond", ("pctor", "Some", [("pvar", x, True)]), place), [("expr", new_inner, th[0][2])], None)
     if n and n[0] == "mcall" and n[2] == "fold" and len(n[4]) == 2 and n[4][1][0] == "closure":
         # `it.fold(init, |mut acc, pat| { stmts; acc })` = `{ let mut acc = init; for pat in it { stmts } acc }`
         # (`Iterator::fold` calls the closure once per item, in order, handing the result on)
@@ -4525,6 +4746,7 @@ def desugar(n):
 def translate_fn(sname, trait, rfn, lname, opts, params_text, ret_text, body_text, fntab, aliases):
     ctx = Ctx(sname, rfn, lname, fntab, aliases)
     ctx.par = bool(opts.get("par"))
+    ctx.low = bool(opts.get("low"))
     CUR["graph"] = STRUCTS[sname]["graph"] or "Graph"
     if trait == "@free":
         ctx.impl_label = "free function of the file"
@@ -4584,8 +4806,20 @@ def translate_fn(sname, trait, rfn, lname, opts, params_text, ret_text, body_tex
         ctx.new_bind(env, Bind("val", name, lean=lean, ty=t, mut=mut, stable=not mut))
         params.append((lean, t, name))
     stmts = parse_body(body_text)
-    if STRUCTS[sname].get("extern"):
+    if STRUCTS[sname].get("extern") or ctx.low:
         stmts = desugar(stmts)
+    if ctx.low:
+        def scan(n):
+            if isinstance(n, list):
+                for x in n:
+                    scan(x)
+            elif isinstance(n, tuple) and n:
+                if n[0] == "mcall" and n[2] == "set_len" and strip_wrappers(n[1])[0] == "var":
+                    ctx.rawbufs.add(strip_wrappers(n[1])[1])
+                for x in n[1:]:
+                    if isinstance(x, (tuple, list)):
+                        scan(x)
+        scan(stmts)
     collect_ptr_aliases(stmts, ctx.ptr_alias)
     # a self-recursive method: structural recursion on fuel; the loop bodies get the recursive
     # function (already applied to the smaller fuel) as the parameter `recf`
@@ -4597,7 +4831,26 @@ def translate_fn(sname, trait, rfn, lname, opts, params_text, ret_text, body_tex
                                    params=[(n, t) for _, t, n in params], value_ty=ctx.value_ty, rec=True,
                                    mutrefs=list(ctx.mutrefs))
     ctx.em = Emitter(4 if ctx.recursive else 2)
-    val, div = compile_stmts(ctx, env, stmts, want_value=True)
+    if opts.get("refpos"):
+        # `fn index_mut(&mut self, i) -> &mut T { &mut self.v[E] }`: the returned reference is the element at the CHECKED
+        # position `E` (panic out of bounds); the generated value is that position - the caller's write is `v.set pos x`
+        ok = len(stmts) == 1 and stmts[0][0] == "expr" and not stmts[0][2]
+        if ok:
+            b0 = strip_wrappers(stmts[0][1])
+            ok = b0[0] == "un" and b0[1] == "&" and strip_wrappers(b0[2])[0] == "index"
+        if not ok:
+            raise TErr("expected a body of the form `&mut PLACE[INDEX]`")
+        ix = strip_wrappers(b0[2])
+        base = compile_expr(ctx, env, ix[1])
+        unify(base.ty, LIST(TVar()), "indexed value")
+        iv = compile_expr(ctx, env, ix[2], NAT)
+        unify(iv.ty, NAT, "index")
+        tmp0 = ctx.fresh_tmp()
+        ctx.em.emit(f"let {tmp0} ← idxPos {base.p()} {iv.p()}")
+        stmts = []
+        val, div = Val(tmp0, NAT, atomic=True), False
+    else:
+        val, div = compile_stmts(ctx, env, stmts, want_value=True)
     if not div:
         if val is None:
             if prune(ctx.value_ty) != UNIT:
@@ -4666,7 +4919,7 @@ def struct_decl(sname):
     info = STRUCTS[sname]
     note = " (the digraph reference is the parameter `g` of the functions)" if info["graph"] else ""
     fpath = info["file"] if "dir" not in info else info["dir"] + "/" + info["file"]
-    lines = [f"/-- `{fpath}`: `pub struct {sname}`{note}. -/",
+    lines = [f"/-- `{fpath}`: `{'struct ' + info['rust'] if 'rust' in info else 'pub struct ' + sname}`{note}. -/",
              f"structure {sname} where"]
     for f, rt, ty in info["fields"]:
         if ty is None:
@@ -4746,24 +4999,29 @@ def load(repo, targets):
         info = STRUCTS[sname]
         path = os.path.join(repo, "src", info.get("dir", "algo"), info["file"])
         region = non_test_region(open(path).read())
-        got = struct_fields(region, sname)
+        got = struct_fields(region, info.get("rust", sname))
         want = [(f, rt) for f, rt, _ in info["fields"]]
         if got != want:
             raise TErr(f"{info['file']}: struct {sname} has fields {got}, the typed field model expects {want}")
         aliases = file_aliases(region)
         blocks = []
-        for trait, b in impl_blocks(region, sname):
+        for trait, b in impl_blocks(region, info.get("rust", sname)):
             fns = fns_of(b)
             hdr = IMPL_HEADERS.get(id(b), "")
             if "where" in hdr:
                 w = hdr.split("where", 1)[1].rstrip("{").strip().rstrip(",")
                 fns = {k: (v[0], v[1] + (" where " + w if "where" not in v[1] else ", " + w), v[2]) for k, v in fns.items()}
             blocks.append((trait, fns))
+            mg = re.match(r"impl(?:<[^>{}]*>)?\s+(\w+<[^{};]*>)\s+for\s", hdr)
+            if mg:
+                BLOCK_LABEL[id(fns)] = squeeze(mg.group(1)).replace(" ", "")
+            if mg and any(r[0] == sname and r[1] == squeeze(mg.group(1)).replace(" ", "") for r in targets):
+                blocks.append((squeeze(mg.group(1)).replace(" ", ""), fns))     # `impl Trait<Args> for ..` named with its arguments
         blocks += macro_impls(region, sname)
         if any(r[0] == sname and r[1] == "@free" for r in targets):
             blocks.append(("@free", free_fns(region)))
         if info["item"] is not None:
-            items = [squeeze(m.group(1)).replace(" ", "") for tr, b in impl_blocks(region, sname) if tr == "Iterator"
+            items = [squeeze(m.group(1)).replace(" ", "") for tr, b in impl_blocks(region, info.get("rust", sname)) if tr == "Iterator"
                      for m in re.finditer(r"type\s+Item\s*=\s*([^;]+);", b)]
             if len(items) != 1:
                 raise TErr(f"{info['file']}: `type Item` of `impl Iterator for {sname}` not found")
@@ -4824,6 +5082,22 @@ namespace GraafVerif.AlgoGen
 
 '''
 
+HEADER5 = '''import GraafVerif.Model.AlgoGenRt5
+/-!
+# GENERATED by tools/translate_algo.py --set 5 from {repo}/src — do not edit
+
+Fifth generated file of the imperative-Rust-subset → pure-Lean translator (`docs/AlgoGen.md`, "Set 5"): the
+remaining functions with unchecked accesses — the bit operations of `AdjacencyMatrix`, the hand-rolled
+iterators (`next` on an explicit iterator state), the pointer walks of `has_walk` / `is_tournament`, the
+`unwrap_unchecked` of `AdjacencyMap::out_neighbors`, `DistanceMatrix::new` (`with_capacity` + `ptr::write` +
+`set_len`).  `Thm/AlgoGen5.lean` proves every definition below equal to the hand-written model function.
+Runtime: `Model/AlgoGenRt.lean` .. `Model/AlgoGenRt5.lean`.
+-/
+set_option linter.unusedVariables false
+namespace GraafVerif.AlgoGen
+
+'''
+
 SETS = {}
 GEN_ROWS = {}
 
@@ -4847,9 +5121,11 @@ def translate(repo, which=1):
     out = [header.replace("{repo}", repo)]
     declared = set()
     for sname, trait, rfn, lname, opts in targets:
+        if which == 5 and sname == "DistanceMatrix":
+            declared.add(sname)
         if sname not in declared and "extern" not in STRUCTS[sname]:
             for f, rt, ty in STRUCTS[sname]["fields"]:
-                if ty is not None and ty[0] == "struct" and ty[1] not in declared:
+                if ty is not None and ty[0] == "struct" and ty[1] not in declared and "extern" not in STRUCTS[ty[1]]:
                     out.append(struct_decl(ty[1]))
                     declared.add(ty[1])
             out.append(struct_decl(sname))
@@ -4875,17 +5151,25 @@ def translate(repo, which=1):
     return text, srcs, fntab
 
 
+BLOCK_LABEL = {}     # id(fns of an impl block) -> `Trait<Args>` (display only: coverage table of set 5)
+
+
 def coverage(srcs, fntab, which=1):
     targets = SETS[which][0]
     targeted = {(r[0], r[1], r[2]): r[3] for r in targets}
     rows = []
     for sname in STRUCTS:
-        if sname == "DistanceMatrix" or sname not in srcs or sname not in {r[0] for r in targets}:
+        if (sname == "DistanceMatrix" and which != 5) or sname not in srcs or sname not in {r[0] for r in targets}:
             continue
         _, blocks, _ = srcs[sname]
         for trait, fns in blocks:
+            full = BLOCK_LABEL.get(id(fns)) if which == 5 else None
+            if full and trait != full and any((sname, full, fn) in targeted for fn in fns):
+                continue                      # the same block is listed under its name with arguments
             for fn in fns:
                 k = (sname, trait, fn)
+                if full and k not in targeted:
+                    k = (sname, full, fn)
                 if k in targeted:
                     sig = GEN_ROWS[k]
                     aux = [d for d in sig["defs"] if d != f"{sname}.{targeted[k]}"]
@@ -4894,7 +5178,7 @@ def coverage(srcs, fntab, which=1):
                 elif k in (NOT_COVERED3 if which == 3 else NOT_COVERED):
                     rows.append((sname, trait, fn, "not covered", (NOT_COVERED3 if which == 3 else NOT_COVERED)[k]))
                 elif "extern" not in STRUCTS[sname]:
-                    rows.append((sname, trait, fn, "not targeted", ""))
+                    rows.append((sname, k[1], fn, "not targeted", ""))
     return rows
 
 
@@ -4907,7 +5191,8 @@ def coverage_md(rows):
         elif r[1] and r[1].startswith("@"):
             label = f"impl From<{r[1].split(':')[1]}> for {r[0]} ({r[1][1:].split(':')[0]}!)"
         else:
-            label = ("impl " + r[1] + " for " + r[0]) if r[1] else "impl " + r[0]
+            rn = STRUCTS[r[0]].get("rust", r[0])
+            label = ("impl " + r[1] + " for " + rn) if r[1] else "impl " + rn
         lines.append(f"| `{fn}` | `{label}` | `{r[2]}` | {r[3]} | {r[4]} |")
     return "\n".join(lines)
 
@@ -4918,6 +5203,7 @@ def main():
     SETS[2] = (TARGETS2, HEADER2)
     SETS[3] = (TARGETS3, HEADER3)
     SETS[4] = (TARGETS4, HEADER4)
+    SETS[5] = (TARGETS5, HEADER5)
     ap = argparse.ArgumentParser()
     ap.add_argument("--repo", default="/repo")
     ap.add_argument("--set", type=int, default=1, choices=sorted(SETS),
